@@ -1,6 +1,819 @@
-//! C09 — stub (to be implemented).
+//! C09 — VCF records and headers round-trip through text; lazy and eager views agree.
+//!
+//! For every generated header / record (descriptions from `genvcf`, turned into noodles values through
+//! the public builders):
+//!  (i)   `vcf::io::Writer` -> text -> `vcf::io::Reader` must give back the description
+//!        (`read_header`, `read_record_buf`);
+//!  (ii)  the emitted text is split by an independent splitter (TAB / `;` / `,` / `:` + percent
+//!        decoding, typed by the header *description*) and compared column by column with the
+//!        description, and the line written by an independent writer (`genvcf::to_vcf_line`) is fed to
+//!        noodles' parsers — so a writer and a parser that are wrong in the same way are still caught;
+//!  (iii) every accessor of the lazy `vcf::Record` read from the same line is compared with the
+//!        eager `RecordBuf`, and `variant_start/variant_end/variant_span` of both are compared with
+//!        each other and with the independent `genvcf::span`.
+
+use std::collections::BTreeSet;
+
+use genvcf::{
+    FieldDef, FilterDef, GtAllele, HeaderDesc, HeaderOpts, IdxMode, Model, Num, RecDesc, RecOpts, Tol, Ty, Val, canon_first_phasing, diff_headers, diff_records, features, gen_header, gen_record,
+    header_desc_of, header_from_text, io_err_class, rec_desc_of_buf, rec_desc_of_record, rec_from_line, series_of_record, span, to_noodles_header, to_record_buf, to_vcf_header, to_vcf_line,
+};
+use noodles_vcf as vcf;
+use serde_json::json;
+use vcf::variant::io::Write as _;
+use vcore::{CaseOut, Ctx, Report, Rng, guard, rng::fnv1a, run_cases};
+
+#[derive(Clone, Debug)]
+struct Case {
+    /// "corpus" | "records" | "headers"
+    kind: &'static str,
+    seed: u64,
+    n: usize,
+    fileformat: Option<(u32, u32)>,
+    idx: IdxMode,
+    model: Model,
+}
+
+fn case_json(c: &Case) -> serde_json::Value {
+    json!({"kind": c.kind, "seed": c.seed, "n": c.n, "fileformat": c.fileformat.map(|f| format!("{}.{}", f.0, f.1)), "idx": format!("{:?}", c.idx), "model": format!("{:?}", c.model)})
+}
+
+fn lossy(b: &[u8]) -> String {
+    let s = String::from_utf8_lossy(b);
+    let s = s.trim_end_matches('\n');
+    if s.len() > 600 { format!("{}…", &s[..s.char_indices().take_while(|(i, _)| *i < 600).last().map(|(i, c)| i + c.len_utf8()).unwrap_or(0)]) } else { s.to_string() }
+}
+
+/// Classes of header aspects: all IDX -> "IDX", else the first aspect.
+fn aspect_class(d: &[(String, String)]) -> String {
+    if d.iter().all(|(a, _)| a.ends_with(".IDX")) { "IDX".into() } else { d.iter().find(|(a, _)| !a.ends_with(".IDX")).map(|(a, _)| a.clone()).unwrap_or_default() }
+}
+
+fn check_header(hd: &HeaderDesc, out: &mut CaseOut) -> Option<(vcf::Header, String, bool)> {
+    out.count("headers", 1);
+    let header = match to_noodles_header(hd) {
+        Ok(h) => h,
+        Err(e) => {
+            out.inconclusive.push(format!("generator produced a header the builders refuse: {e}"));
+            return None;
+        }
+    };
+    let written = guard::catch(|| {
+        let mut w = vcf::io::Writer::new(Vec::new());
+        w.write_header(&header).map(|_| w.into_inner())
+    });
+    let text = match written {
+        Err(p) => {
+            out.violation(format!("panic:{}", p.sig), format!("write_header panicked: {} [{}]", p.message, to_vcf_header(hd)));
+            return None;
+        }
+        Ok(Err(e)) => {
+            out.count(&format!("header_rejected[{}]", io_err_class(&e)), 1);
+            return None;
+        }
+        Ok(Ok(b)) => match String::from_utf8(b) {
+            Ok(s) => s,
+            Err(_) => {
+                out.violation("header-emitted-text:not-utf8", "the emitted header is not UTF-8");
+                return None;
+            }
+        },
+    };
+    out.count("headers_accepted", 1);
+    out.count(&format!("headers_fileformat[{}.{}]", hd.fileformat.0, hd.fileformat.1), 1);
+    if hd.has_explicit_idx() {
+        out.count("headers_with_explicit_idx", 1);
+    }
+    // (ii) the emitted text, read by the independent splitter
+    let mut reported: BTreeSet<String> = BTreeSet::new();
+    match header_from_text(&text) {
+        Err(e) => out.violation("header-emitted-text:unreadable-by-independent-splitter", format!("{e}\n{text}")),
+        Ok(got) => {
+            let d = diff_headers(hd, &got);
+            if !d.is_empty() {
+                out.violation(format!("header-emitted-text-ne-desc:{}", aspect_class(&d)), format!("the header text written by vcf::io::Writer does not carry the description: {:?}\n{}", &d[..d.len().min(4)], text));
+                reported.extend(d.into_iter().map(|x| x.0));
+            }
+        }
+    }
+    // (i) parse(write(h)) == h
+    let read = guard::catch(|| vcf::io::Reader::new(text.as_bytes()).read_header());
+    let mut read_err: Option<String> = None;
+    match read {
+        Err(p) => out.violation(format!("panic:{}", p.sig), format!("read_header panicked on the writer's output: {}\n{text}", p.message)),
+        Ok(Err(e)) => {
+            out.violation(format!("header-reader-rejects-writer-output:{}", io_err_class(&e)), format!("{e:?}\n{text}"));
+            read_err = Some(io_err_class(&e));
+        }
+        Ok(Ok(h2)) => {
+            let d: Vec<_> = diff_headers(hd, &header_desc_of(&h2)).into_iter().filter(|x| !reported.contains(&x.0)).collect();
+            if !d.is_empty() {
+                out.violation(format!("header-roundtrip-ne:{}", aspect_class(&d)), format!("parse(write(header)) differs: {:?}\n{}", &d[..d.len().min(4)], text));
+            }
+        }
+    }
+    // independent text -> noodles parser
+    let mine = to_vcf_header(hd);
+    if mine != text {
+        out.count("headers_text_differs_from_independent_writer", 1);
+    }
+    let read = guard::catch(|| vcf::io::Reader::new(mine.as_bytes()).read_header());
+    match read {
+        Err(p) => out.violation(format!("panic:{}", p.sig), format!("read_header panicked on independently written text: {}\n{mine}", p.message)),
+        Ok(Err(e)) => {
+            // the same rejection of the same construct was reported above
+            if read_err.as_deref() != Some(io_err_class(&e).as_str()) {
+                out.violation(format!("header-reader-rejects-independent-text:{}", io_err_class(&e)), format!("{e:?}\n{mine}"));
+            }
+        }
+        Ok(Ok(h3)) => {
+            let d = diff_headers(hd, &header_desc_of(&h3));
+            if !d.is_empty() {
+                out.violation(format!("header-parse-of-independent-text-ne-desc:{}", aspect_class(&d)), format!("{:?}\n{mine}", &d[..d.len().min(4)]));
+            }
+        }
+    }
+    Some((header, text, read_err.is_none()))
+}
+
+fn splitter_err_class(e: &str) -> &'static str {
+    for (pat, cls) in [("columns", "column-count"), ("CR/LF", "raw-newline"), ("bad integer", "integer"), ("bad float", "float"), ("bad character", "character"), ("bad allele", "genotype"), ("UTF-8", "utf8"), ("more values", "sample-values"), ("without a value", "info-without-value"), ("bad POS", "pos"), ("bad QUAL", "qual"), ("LF", "no-final-lf")] {
+        if e.contains(pat) {
+            return cls;
+        }
+    }
+    "other"
+}
+
+struct SpanView {
+    start: Option<Result<u64, String>>,
+    end: Result<u64, String>,
+    span: Result<u64, String>,
+}
+
+fn span_view<R: vcf::variant::Record + ?Sized>(h: &vcf::Header, r: &R) -> SpanView {
+    SpanView {
+        start: r.variant_start().map(|p| p.map(|p| usize::from(p) as u64).map_err(|e| io_err_class(&e))),
+        end: r.variant_end(h).map(|p| usize::from(p) as u64).map_err(|e| io_err_class(&e)),
+        span: r.variant_span(h).map(|p| p as u64).map_err(|e| io_err_class(&e)),
+    }
+}
+
+/// Extra direct calls of the lazy record's inherent accessors (beyond the trait view).
+fn lazy_inherent(header: &vcf::Header, rec: &vcf::Record, view: &RecDesc, eager: Option<&vcf::variant::RecordBuf>, out: &mut CaseOut, ctxs: &str) {
+    use vcf::variant::record::{AlternateBases as _, Filters as _, Ids as _, samples::Series as _};
+    macro_rules! bad {
+        ($what:expr, $detail:expr) => {
+            out.violation(format!("lazy-inherent-accessor-ne-trait-view:{}", $what), format!("{}\n{ctxs}", $detail))
+        };
+    }
+    if rec.reference_sequence_name() != view.chrom {
+        bad!("reference_sequence_name", format!("{:?} vs {:?}", rec.reference_sequence_name(), view.chrom));
+    }
+    if rec.reference_bases() != view.reference {
+        bad!("reference_bases", format!("{:?} vs {:?}", rec.reference_bases(), view.reference));
+    }
+    if rec.ids().len() != view.ids.len() || rec.ids().is_empty() != view.ids.is_empty() {
+        bad!("ids.len", format!("{} vs {}", rec.ids().len(), view.ids.len()));
+    }
+    if rec.alternate_bases().len() != view.alts.len() || rec.alternate_bases().is_empty() != view.alts.is_empty() {
+        bad!("alternate_bases.len", format!("{} vs {}", rec.alternate_bases().len(), view.alts.len()));
+    }
+    if rec.filters().len() != view.filters.len() || rec.filters().is_empty() != view.filters.is_empty() {
+        bad!("filters.len", format!("{} vs {}", rec.filters().len(), view.filters.len()));
+    }
+    {
+        use vcf::variant::record::Info as _;
+        let info = rec.info();
+        if info.len() != view.info.len() || vcf::variant::record::Info::is_empty(&info) != view.info.is_empty() {
+            bad!("info.len", format!("{} vs {}", info.len(), view.info.len()));
+        }
+        // get(key) for every key and for an absent key
+        for (k, v) in &view.info {
+            match info.get(header, k) {
+                None => bad!("info.get", format!("get({k:?}) = None")),
+                Some(Err(e)) => bad!("info.get", format!("get({k:?}) = Err({e})")),
+                Some(Ok(got)) => {
+                    let got = got.map(|g| vcf::variant::record_buf::info::field::Value::try_from(g));
+                    let got = match got {
+                        None => None,
+                        Some(Ok(g)) => Some(g),
+                        Some(Err(e)) => {
+                            bad!("info.get", format!("get({k:?}) value conversion failed: {e}"));
+                            continue;
+                        }
+                    };
+                    let exp = v.as_ref().map(|v| genvcf_info_value(v));
+                    let same = match (&got, &exp) {
+                        (None, None) => true,
+                        (Some(a), Some(b)) => format!("{a:?}") == format!("{b:?}"),
+                        _ => false,
+                    };
+                    if !same {
+                        bad!("info.get", format!("get({k:?}) = {got:?}, iteration gave {exp:?}"));
+                    }
+                }
+            }
+        }
+        if info.get(header, "no_such_key_").is_some() {
+            bad!("info.get", "get(absent key) is Some");
+        }
+    }
+    let samples = rec.samples();
+    if samples.is_empty() != view.samples.is_empty() && !view.format.is_empty() {
+        bad!("samples.is_empty", format!("{} vs {} rows", samples.is_empty(), view.samples.len()));
+    }
+    let keys: Vec<String> = samples.keys().iter().map(String::from).collect();
+    if keys != view.format {
+        bad!("samples.keys", format!("{keys:?} vs {:?}", view.format));
+    }
+    if samples.iter().count() != view.samples.len() {
+        bad!("samples.iter.count", format!("{} vs {}", samples.iter().count(), view.samples.len()));
+    }
+    for (fi, k) in view.format.iter().enumerate() {
+        match samples.select(k) {
+            None => bad!("samples.select", format!("select({k:?}) = None")),
+            Some(series) => {
+                if series.name(header).ok() != Some(k.as_str()) {
+                    bad!("series.name", format!("{:?} vs {k:?}", series.name(header).ok()));
+                }
+                let eager_series = eager.and_then(|b| b.samples().select(k));
+                for (si, row) in view.samples.iter().enumerate() {
+                    let exp = row.get(fi).cloned().unwrap_or(None);
+                    // shape of the answer: no such sample / missing / value, against the eager series
+                    let exp_shape = match &eager_series {
+                        Some(es) => match es.get(si) {
+                            None => "none",
+                            Some(None) => "missing",
+                            Some(Some(_)) => "value",
+                        },
+                        None => if exp.is_some() { "value" } else { "missing" },
+                    };
+                    let lazy_answer = series.get(header, si);
+                    let got_shape = match &lazy_answer {
+                        None => "none",
+                        Some(None) => "missing",
+                        Some(Some(Err(_))) => "error",
+                        Some(Some(Ok(_))) => "value",
+                    };
+                    if got_shape != exp_shape {
+                        out.violation(format!("lazy-series-get-ne-eager:{got_shape}-vs-{exp_shape}"), format!("Series::get({si}) of key {k:?}: lazy answers {got_shape:?}, eager {exp_shape:?} (none = no such sample)\n{ctxs}"));
+                        continue;
+                    }
+                    let got = match lazy_answer {
+                        Some(Some(Ok(v))) => match genvcf::conv::val_of_series_ref(v) {
+                            Ok(v) => Some(v),
+                            Err(e) => {
+                                out.violation("lazy-inherent-accessor-ne-trait-view:series.get", format!("get({si}) value unreadable: {e}\n{ctxs}"));
+                                continue;
+                            }
+                        },
+                        _ => None,
+                    };
+                    if !genvcf::opt_val_eq(&exp, &got, &Tol::TEXT) {
+                        out.violation("lazy-inherent-accessor-ne-trait-view:series.get", format!("key {k:?} sample {si}: {} vs {}\n{ctxs}", genvcf::show_val(&exp), genvcf::show_val(&got)));
+                    }
+                }
+                if series.get(header, view.samples.len()).is_some() {
+                    bad!("series.get", "get(sample count) is Some");
+                }
+            }
+        }
+    }
+    if samples.select("no_such_key_").is_some() {
+        bad!("samples.select", "select(absent key) is Some");
+    }
+    for (si, name) in header.sample_names().iter().enumerate() {
+        if samples.get(header, name).is_some() != (si < view.samples.len()) || samples.get_index(si).is_some() != (si < view.samples.len()) {
+            bad!("samples.get", format!("get({name:?}) / get_index({si}) presence differs from the row count {}", view.samples.len()));
+        }
+    }
+}
+
+fn genvcf_info_value(v: &Val) -> vcf::variant::record_buf::info::field::Value {
+    // through the record builder (keeps this file free of a second conversion table)
+    let r = RecDesc { chrom: "x".into(), pos: 1, ids: vec![], reference: "A".into(), alts: vec![], qual: None, filters: vec![], info: vec![("k".into(), Some(v.clone()))], format: vec![], samples: vec![] };
+    to_record_buf(&r).info().as_ref().get_index(0).and_then(|(_, v)| v.clone()).expect("value")
+}
+
+struct RecResult {
+    line: Option<Vec<u8>>,
+}
+
+fn check_record(hd: &HeaderDesc, header: &vcf::Header, rd: &RecDesc, out: &mut CaseOut) -> RecResult {
+    let ff = hd.fileformat;
+    out.count("records", 1);
+    let buf = to_record_buf(rd);
+    let written = guard::catch(|| {
+        let mut w = vcf::io::Writer::new(Vec::new());
+        w.write_variant_record(header, &buf).map(|_| w.into_inner())
+    });
+    let mine = to_vcf_line(rd, hd);
+    let line = match written {
+        Err(p) => {
+            out.violation(format!("panic:{}", p.sig), format!("write_variant_record panicked: {} on {}", p.message, lossy(&mine)));
+            return RecResult { line: None };
+        }
+        Ok(Err(e)) => {
+            out.count(&format!("rejected[{}]", io_err_class(&e)), 1);
+            return RecResult { line: None };
+        }
+        Ok(Ok(l)) => l,
+    };
+    out.count("records_accepted", 1);
+    let ctxs = format!("emitted line: {}\nfileformat {}.{}", lossy(&line), ff.0, ff.1);
+    let canon = |mut r: RecDesc| -> RecDesc {
+        if ff < (4, 4) {
+            canon_first_phasing(&mut r);
+        }
+        r
+    };
+    let exp = canon(rd.clone());
+    let mut bad: BTreeSet<String> = BTreeSet::new();
+    let colkey = |d: &genvcf::FieldDiff| format!("{}|{}", d.column, d.key);
+
+    // (ii) the emitted line, column by column
+    match rec_from_line(&line, hd) {
+        Err(e) => {
+            out.violation(format!("emitted-line-unreadable-by-independent-splitter:{}", splitter_err_class(&e)), format!("{e}\n{ctxs}"));
+            bad.insert("*".into());
+        }
+        Ok(cols) => {
+            out.count("lines_split_and_compared_columnwise", 1);
+            for d in diff_records(&exp, &canon(cols), &Tol::TEXT) {
+                out.violation(format!("emitted-column-ne-desc:{}:{}", d.column, d.class), format!("{} {}: {}\n{ctxs}", d.column, d.key, d.detail));
+                bad.insert(colkey(&d));
+            }
+        }
+    }
+    if line == mine {
+        out.count("lines_byte_identical_to_independent_writer", 1);
+    }
+
+    // (i) eager read of the writer's line
+    let eager = guard::catch(|| {
+        let mut r = vcf::io::Reader::new(&line[..]);
+        let mut b = vcf::variant::RecordBuf::default();
+        r.read_record_buf(header, &mut b).map(|n| (n, b))
+    });
+    let mut eager_err: Option<String> = None;
+    let eager_buf = match eager {
+        Err(p) => {
+            out.violation(format!("panic:{}", p.sig), format!("read_record_buf panicked: {}\n{ctxs}", p.message));
+            None
+        }
+        Ok(Err(e)) => {
+            let cls = io_err_class(&e);
+            if !bad.contains("*") {
+                out.violation(format!("eager-read-rejects-writer-output:{cls}"), format!("{e:?}\n{ctxs}"));
+            }
+            eager_err = Some(cls);
+            None
+        }
+        Ok(Ok((n, b))) => {
+            if n != line.len() {
+                out.violation("eager-read:byte-count", format!("read_record_buf returned {n} for a line of {} bytes\n{ctxs}", line.len()));
+            }
+            Some(b)
+        }
+    };
+    let eager_desc = eager_buf.as_ref().map(|b| canon(rec_desc_of_buf(b)));
+    if let Some(got) = &eager_desc {
+        for d in diff_records(&exp, got, &Tol::TEXT) {
+            if !bad.contains(&colkey(&d)) && !bad.contains("*") {
+                out.violation(format!("eager-roundtrip-ne-desc:{}:{}", d.column, d.class), format!("{} {}: {}\n{ctxs}", d.column, d.key, d.detail));
+                bad.insert(colkey(&d));
+            }
+        }
+    }
+
+    // (iii) lazy record from the same line
+    let lazy = guard::catch(|| {
+        let mut r = vcf::io::Reader::new(&line[..]);
+        let mut rec = vcf::Record::default();
+        r.read_record(&mut rec).map(|n| (n, rec))
+    });
+    let lazy_rec = match lazy {
+        Err(p) => {
+            out.violation(format!("panic:{}", p.sig), format!("read_record panicked: {}\n{ctxs}", p.message));
+            None
+        }
+        Ok(Err(e)) => {
+            out.violation(format!("lazy-read-rejects-writer-output:{}", io_err_class(&e)), format!("{e:?}\n{ctxs}"));
+            None
+        }
+        Ok(Ok((n, rec))) => {
+            if n != line.len() {
+                out.violation("lazy-read:byte-count", format!("read_record returned {n} for a line of {} bytes\n{ctxs}", line.len()));
+            }
+            Some(rec)
+        }
+    };
+    if let Some(rec) = &lazy_rec {
+        // the reference the lazy accessors are held against: the eager record; the description when
+        // the eager reader failed on this line
+        let (reference, refname) = match &eager_desc {
+            Some(e) => (e.clone(), "eager"),
+            None => (exp.clone(), "desc"),
+        };
+        let view = guard::catch(|| rec_desc_of_record(header, rec));
+        match view {
+            Err(p) => out.violation(format!("panic:{}", p.sig), format!("a lazy accessor panicked: {}\n{ctxs}", p.message)),
+            Ok(Err(e)) => out.violation(format!("lazy-accessor-error:{}", io_err_class(&e)), format!("{e:?}\n{ctxs}")),
+            Ok(Ok(v)) => {
+                out.count("lazy_records_compared_with_eager", (refname == "eager") as u64);
+                let v = canon(v);
+                for d in diff_records(&reference, &v, &Tol::TEXT) {
+                    if refname == "eager" || !bad.contains(&colkey(&d)) {
+                        out.violation(format!("lazy-ne-{refname}:{}:{}", d.column, d.class), format!("{} {}: {}\n{ctxs}", d.column, d.key, d.detail));
+                    }
+                }
+                // column-wise view must agree with the row-wise one
+                match guard::catch(|| series_of_record(header, rec)) {
+                    Err(p) => out.violation(format!("panic:{}", p.sig), format!("a lazy series accessor panicked: {}\n{ctxs}", p.message)),
+                    Ok(Err(e)) => out.violation(format!("lazy-series-error:{}", io_err_class(&e)), format!("{e:?}\n{ctxs}")),
+                    Ok(Ok(series)) => {
+                        let names: Vec<&String> = series.iter().map(|s| &s.0).collect();
+                        if names != v.format.iter().collect::<Vec<_>>() {
+                            out.violation("lazy-series-ne-rows:names", format!("{names:?} vs {:?}\n{ctxs}", v.format));
+                        } else {
+                            for (fi, (k, col)) in series.iter().enumerate() {
+                                if col.len() != v.samples.len() {
+                                    out.violation("lazy-series-ne-rows:length", format!("series {k}: {} values, {} samples\n{ctxs}", col.len(), v.samples.len()));
+                                    continue;
+                                }
+                                for (si, got) in col.iter().enumerate() {
+                                    let mut e = v.samples[si].get(fi).cloned().unwrap_or(None);
+                                    let mut g = got.clone();
+                                    if ff < (4, 4) {
+                                        for x in [&mut e, &mut g] {
+                                            if let Some(Val::Gt(gt)) = x {
+                                                let imp = genvcf::implied_first_phasing(gt);
+                                                gt[0].phased = imp;
+                                            }
+                                        }
+                                    }
+                                    if !genvcf::opt_val_eq(&e, &g, &Tol::TEXT) {
+                                        out.violation(format!("lazy-series-ne-rows:{}", genvcf::classify(&e, &g)), format!("series {k} sample {si}: {} vs {}\n{ctxs}", genvcf::show_val(&e), genvcf::show_val(&g)));
+                                    }
+                                }
+                            }
+                        }
+                    }
+                }
+                // RecordBuf::try_from_variant_record(lazy) == view
+                match guard::catch(|| vcf::variant::RecordBuf::try_from_variant_record(header, rec)) {
+                    Err(p) => out.violation(format!("panic:{}", p.sig), format!("try_from_variant_record panicked: {}\n{ctxs}", p.message)),
+                    Ok(Err(e)) => out.violation(format!("lazy-convert-error:{}", io_err_class(&e)), format!("{e:?}\n{ctxs}")),
+                    Ok(Ok(b)) => {
+                        for d in diff_records(&v, &canon(rec_desc_of_buf(&b)), &Tol::TEXT) {
+                            out.violation(format!("lazy-convert-ne-accessors:{}:{}", d.column, d.class), format!("{} {}: {}\n{ctxs}", d.column, d.key, d.detail));
+                        }
+                    }
+                }
+                if let Err(p) = guard::catch(|| lazy_inherent(header, rec, &v, eager_buf.as_ref(), out, &ctxs)) {
+                    out.violation(format!("panic:{}", p.sig), format!("an inherent lazy accessor panicked: {}\n{ctxs}", p.message));
+                }
+                out.count("lazy_records_read_through_every_accessor", 1);
+            }
+        }
+        // spans
+        let ind = span(&exp, ff);
+        let ls = guard::catch(|| span_view(header, rec));
+        let es = eager_buf.as_ref().map(|b| guard::catch(|| span_view(header, b)));
+        match (&ls, &es) {
+            (Err(p), _) => out.violation(format!("panic:{}", p.sig), format!("variant_end/span of the lazy record panicked: {}\n{ctxs}", p.message)),
+            (_, Some(Err(p))) => out.violation(format!("panic:{}", p.sig), format!("variant_end/span of the eager record panicked: {}\n{ctxs}", p.message)),
+            (Ok(l), e) => {
+                if let Some(Ok(e)) = e {
+                    let same = l.start == e.start && l.end == e.end && l.span == e.span;
+                    if !same {
+                        out.violation("span:lazy-ne-eager", format!("lazy start/end/span {:?}/{:?}/{:?} vs eager {:?}/{:?}/{:?}\n{ctxs}", l.start, l.end, l.span, e.start, e.end, e.span));
+                    }
+                    out.count("spans_lazy_vs_eager", 1);
+                }
+                // against the independent rule
+                let subject = match e {
+                    Some(Ok(e)) => e,
+                    _ => l,
+                };
+                match &ind {
+                    Ok((s, en)) => {
+                        let fcls = if ff < (4, 5) { "before-4.5" } else { "from-4.5" };
+                        let start_ok = match &subject.start {
+                            None => rd.pos == 0,
+                            Some(Ok(p)) => *p == rd.pos && rd.pos > 0,
+                            Some(Err(_)) => false,
+                        };
+                        if !start_ok {
+                            out.violation("span:variant_start-ne-desc", format!("variant_start {:?}, POS {}\n{ctxs}", subject.start, rd.pos));
+                        }
+                        if subject.end != Ok(*en) {
+                            out.violation(format!("span:variant_end-ne-independent:{fcls}"), format!("variant_end {:?}, independent rule gives {en}\n{ctxs}", subject.end));
+                        } else if subject.span != Ok(en - s + 1) {
+                            out.violation(format!("span:variant_span-ne-independent:{fcls}"), format!("variant_span {:?}, independent rule gives {}\n{ctxs}", subject.span, en - s + 1));
+                        }
+                        out.count("spans_vs_independent_rule", 1);
+                        let kind = if exp.info_get("END").map(|v| v.is_some()).unwrap_or(false) && ff < (4, 5) {
+                            "END"
+                        } else if ff >= (4, 5) && (en - s + 1) > exp.reference.len() as u64 {
+                            "SVLEN/LEN"
+                        } else {
+                            "REF"
+                        };
+                        out.count(&format!("span_driven_by[{kind}|{fcls}]"), 1);
+                    }
+                    Err(_) => out.count("spans_outside_independent_rule", 1),
+                }
+            }
+        }
+    }
+
+    // the line an independent writer produces, through noodles' parsers
+    if mine != line {
+        out.count("lines_differing_from_independent_writer", 1);
+        let eager2 = guard::catch(|| {
+            let mut r = vcf::io::Reader::new(&mine[..]);
+            let mut b = vcf::variant::RecordBuf::default();
+            r.read_record_buf(header, &mut b).map(|_| b)
+        });
+        let c2 = format!("independently written line: {}\nfileformat {}.{}", lossy(&mine), ff.0, ff.1);
+        match eager2 {
+            Err(p) => out.violation(format!("panic:{}", p.sig), format!("read_record_buf panicked: {}\n{c2}", p.message)),
+            Ok(Err(e)) => {
+                let cls = io_err_class(&e);
+                if eager_err.as_deref() != Some(cls.as_str()) {
+                    out.violation(format!("eager-read-rejects-independent-line:{cls}"), format!("{e:?}\n{c2}"));
+                }
+            }
+            Ok(Ok(b)) => {
+                for d in diff_records(&exp, &canon(rec_desc_of_buf(&b)), &Tol::TEXT) {
+                    if !bad.contains(&colkey(&d)) {
+                        out.violation(format!("eager-parse-of-independent-line-ne-desc:{}:{}", d.column, d.class), format!("{} {}: {}\n{c2}", d.column, d.key, d.detail));
+                    }
+                }
+            }
+        }
+        let lazy2 = guard::catch(|| {
+            let mut r = vcf::io::Reader::new(&mine[..]);
+            let mut rec = vcf::Record::default();
+            r.read_record(&mut rec)?;
+            rec_desc_of_record(header, &rec)
+        });
+        match lazy2 {
+            Err(p) => out.violation(format!("panic:{}", p.sig), format!("lazy read panicked: {}\n{c2}", p.message)),
+            Ok(Err(e)) => out.violation(format!("lazy-read-rejects-independent-line:{}", io_err_class(&e)), format!("{e:?}\n{c2}")),
+            Ok(Ok(v)) => {
+                for d in diff_records(&exp, &canon(v), &Tol::TEXT) {
+                    out.violation(format!("lazy-parse-of-independent-line-ne-desc:{}:{}", d.column, d.class), format!("{} {}: {}\n{c2}", d.column, d.key, d.detail));
+                }
+            }
+        }
+        out.count("independent_lines_parsed", 1);
+    }
+
+    // coverage
+    for (k, v) in &rd.info {
+        if let Some(d) = hd.info(k) {
+            out.count(&format!("info[{}x{}]", d.num.class(), d.ty.text()), 1);
+            let _ = v;
+        }
+    }
+    for k in &rd.format {
+        if let Some(d) = hd.format(k) {
+            out.count(&format!("format[{}x{}]", d.num.class(), d.ty.text()), 1);
+        }
+    }
+    out.count(&format!("records_fileformat[{}.{}]", ff.0, ff.1), 1);
+    out.count(&format!("records_samples[{}]", match rd.samples.len() { 0 => "0", 1 => "1", 2..=3 => "2-3", _ => "4+" }), 1);
+    RecResult { line: if eager_desc.is_some() { Some(line) } else { None } }
+}
+
+/// header text + accepted lines as one file through `read_header` / `record_bufs` / `records`.
+fn file_pass(header_text: &str, header: &vcf::Header, lines: &[Vec<u8>], out: &mut CaseOut) {
+    let mut file = header_text.as_bytes().to_vec();
+    for l in lines {
+        file.extend_from_slice(l);
+    }
+    let r = guard::catch(|| -> std::io::Result<(usize, usize, bool)> {
+        let mut rd = vcf::io::Reader::new(&file[..]);
+        let h = rd.read_header()?;
+        let mut n = 0;
+        let mut same = true;
+        for (i, rec) in rd.record_bufs(&h).enumerate() {
+            match rec {
+                Ok(rec) => {
+                    // the individually parsed line gives the same record
+                    if let Some(l) = lines.get(i) {
+                        let mut one = vcf::io::Reader::new(&l[..]);
+                        let mut b = vcf::variant::RecordBuf::default();
+                        if one.read_record_buf(header, &mut b).is_ok() && !diff_records(&rec_desc_of_buf(&b), &rec_desc_of_buf(&rec), &Tol::TEXT).is_empty() {
+                            same = false;
+                        }
+                    }
+                    n += 1;
+                }
+                Err(_) => return Ok((n, 0, same)), // individual lines already reported
+            }
+        }
+        let mut rd = vcf::io::Reader::new(&file[..]);
+        rd.read_header()?;
+        let m = rd.records().filter(|r| r.is_ok()).count();
+        Ok((n, m, same))
+    });
+    match r {
+        Err(p) => out.violation(format!("panic:{}", p.sig), format!("whole-file pass panicked: {}", p.message)),
+        Ok(Err(e)) => out.violation(format!("file-pass:header:{}", io_err_class(&e)), format!("{e:?}")),
+        Ok(Ok((n, m, same))) => {
+            out.count("file_pass_records", n as u64);
+            if !same {
+                out.violation("file-pass:record-differs-from-single-line-parse", "a record read in sequence differs from the same line parsed alone");
+            }
+            if m != lines.len() && n == lines.len() {
+                out.violation("file-pass:lazy-count", format!("records() yields {m} records, file has {}", lines.len()));
+            }
+        }
+    }
+}
+
+fn fdef(id: &str, num: Num, ty: Ty) -> FieldDef {
+    FieldDef { id: id.into(), num, ty, desc: format!("{id} field"), idx: None, extra: vec![] }
+}
+
+/// Hand-written corpus: basics plus a witness of every known finding (independent of the seed).
+fn corpus() -> Vec<(HeaderDesc, Vec<RecDesc>)> {
+    let mut h = HeaderDesc {
+        fileformat: (4, 3),
+        infos: vec![fdef("DP", Num::Count(1), Ty::Integer), fdef("AF", Num::A, Ty::Float), fdef("cI", Num::Count(1), Ty::Character), fdef("cA", Num::Dot, Ty::Character), fdef("sI", Num::Count(1), Ty::String), fdef("sA", Num::Dot, Ty::String), fdef("DB", Num::Count(0), Ty::Flag), fdef("END", Num::Count(1), Ty::Integer)],
+        filters: vec![FilterDef { id: "q10".into(), desc: "Quality below 10".into(), idx: None, extra: vec![] }],
+        formats: vec![fdef("GT", Num::Count(1), Ty::String), fdef("GQ", Num::Count(1), Ty::Integer), fdef("fC", Num::Count(1), Ty::Character), fdef("fS", Num::Dot, Ty::String)],
+        alts: vec![],
+        contigs: vec![genvcf::ContigDef { id: "20".into(), length: Some(62435964), md5: None, url: None, idx: None, extra: vec![] }],
+        others: vec![],
+        samples: vec!["NA00001".into(), "NA00002".into()],
+    };
+    let gt = |a: u32, b: u32, p: bool| Some(Val::Gt(vec![GtAllele { allele: Some(a), phased: p }, GtAllele { allele: Some(b), phased: p }]));
+    let base = RecDesc { chrom: "20".into(), pos: 14370, ids: vec!["rs6054257".into()], reference: "G".into(), alts: vec!["A".into()], qual: Some(29f32.to_bits()), filters: vec!["PASS".into()], info: vec![("DP".into(), Some(Val::Int(14))), ("AF".into(), Some(Val::Floats(vec![Some(0.5f32.to_bits())]))), ("DB".into(), Some(Val::Flag))], format: vec!["GT".into(), "GQ".into()], samples: vec![vec![gt(0, 0, true), Some(Val::Int(48))], vec![gt(1, 0, true), Some(Val::Int(48))]] };
+    let mut recs = vec![base.clone()];
+    // reserved characters in strings: round-trip through percent-encoding
+    let mut r = base.clone();
+    r.info = vec![("sI".into(), Some(Val::Str("a;b=c%d,e:f\tg".into()))), ("sA".into(), Some(Val::Strs(vec![Some(".".into()), None, Some("x,y".into())])))];
+    r.format = vec!["GT".into(), "fS".into()];
+    r.samples = vec![vec![gt(0, 1, false), Some(Val::Strs(vec![Some("p:q".into()), Some("%3A".into())]))], vec![gt(1, 1, false), None]];
+    recs.push(r);
+    // known finding witnesses: Character values that need percent-encoding (INFO, FORMAT)
+    let mut r = base.clone();
+    r.info = vec![("cI".into(), Some(Val::Char(';')))];
+    recs.push(r);
+    let mut r = base.clone();
+    r.info = vec![("cA".into(), Some(Val::Chars(vec![Some('a'), Some(','), None])))];
+    recs.push(r);
+    let mut r = base.clone();
+    r.format = vec!["GT".into(), "fC".into()];
+    r.samples = vec![vec![gt(0, 1, false), Some(Val::Char(':'))], vec![gt(1, 1, false), Some(Val::Char('x'))]];
+    recs.push(r);
+    // the same defect seen from the other side: characters only the independent writer encodes
+    let mut r = base.clone();
+    r.info = vec![("cI".into(), Some(Val::Char(':')))];
+    r.format = vec!["GT".into(), "fC".into()];
+    r.samples = vec![vec![gt(0, 1, false), Some(Val::Char('='))], vec![gt(1, 1, false), Some(Val::Char('x'))]];
+    recs.push(r.clone());
+    r.info = vec![];
+    recs.push(r);
+    // END-driven span
+    let mut r = base.clone();
+    r.alts = vec!["<DEL>".into()];
+    r.info = vec![("END".into(), Some(Val::Int(14470)))];
+    recs.push(r);
+    // known finding witness: a sample column that is `.` (all values missing, trailing ones dropped)
+    let mut r = base.clone();
+    r.samples = vec![vec![gt(0, 1, false), Some(Val::Int(3))], vec![None]];
+    recs.push(r);
+    let mut out = vec![(h.clone(), recs)];
+    // known finding witness: the FORMAT Number values of VCF 4.4/4.5 (P, LA, LR, LG, M)
+    let mut h45 = h.clone();
+    h45.fileformat = (4, 5);
+    h45.formats.push(fdef("pP", Num::P, Ty::Integer));
+    h45.formats.push(fdef("pLA", Num::LA, Ty::Integer));
+    out.push((h45, vec![base.clone()]));
+    // known finding witness: explicit IDX
+    h.infos[0].idx = Some(3);
+    h.infos[1].idx = Some(1);
+    h.contigs[0].idx = Some(0);
+    h.filters[0].idx = Some(7);
+    out.push((h, vec![base]));
+    out
+}
+
+fn run_case(c: &Case) -> CaseOut {
+    let mut out = CaseOut::new();
+    out.evaluations = 0;
+    let mut fps: BTreeSet<u64> = BTreeSet::new();
+    let mut do_records = |hd: &HeaderDesc, recs: &[RecDesc], out: &mut CaseOut| {
+        out.evaluations += 1;
+        let Some((header, text, header_readable)) = check_header(hd, out) else { return };
+        let mut lines = Vec::new();
+        for rd in recs {
+            out.evaluations += 1;
+            let r = check_record(hd, &header, rd, out);
+            if let Some(l) = r.line {
+                lines.push(l);
+            }
+            for f in features(rd, hd) {
+                fps.insert(fnv1a(f.as_bytes()));
+            }
+        }
+        if !lines.is_empty() && header_readable {
+            file_pass(&text, &header, &lines, out);
+        }
+    };
+    match c.kind {
+        "corpus" => {
+            for (hd, recs) in corpus() {
+                do_records(&hd, &recs, &mut out);
+            }
+        }
+        "records" => {
+            let mut rng = Rng::new(c.seed, 0xC09, 1);
+            let ho = HeaderOpts { fileformat: c.fileformat, max_samples: if c.seed % 7 == 0 { 40 } else { 6 }, idx: c.idx, model: c.model, extras: true, min_contig_len: None };
+            let hd = gen_header(&mut rng, &ho);
+            let ro = RecOpts { model: c.model, nan: true, invalid_ints: false, rare: 14 };
+            let recs: Vec<RecDesc> = (0..c.n).map(|_| gen_record(&mut rng, &hd, &ro)).collect();
+            do_records(&hd, &recs, &mut out);
+            if c.seed % 5 == 0 {
+                out.sample = Some(json!({"header": to_vcf_header(&hd).lines().take(6).collect::<Vec<_>>(), "first_line": lossy(&to_vcf_line(&recs[0], &hd))}));
+            }
+        }
+        "headers" => {
+            let mut rng = Rng::new(c.seed, 0xC09, 2);
+            for i in 0..c.n {
+                let idx = if i % 8 == 7 { [IdxMode::Natural, IdxMode::Permuted, IdxMode::Sparse][(i / 8) % 3] } else { IdxMode::None };
+                let ho = HeaderOpts { fileformat: None, max_samples: 12, idx, model: if i % 5 == 0 { Model::Common } else { Model::Full }, extras: true, min_contig_len: None };
+                let hd = gen_header(&mut rng, &ho);
+                out.evaluations += 1;
+                check_header(&hd, &mut out);
+                let shape = format!("hdr|v{}.{}|i{}|f{}|fl{}|a{}|c{}|o{}|s{}|idx{:?}", hd.fileformat.0, hd.fileformat.1, hd.infos.len().min(12), hd.formats.len().min(10), hd.filters.len(), hd.alts.len().min(3), hd.contigs.len().min(4), hd.others.len().min(4), hd.samples.len().min(5), idx);
+                fps.insert(fnv1a(shape.as_bytes()));
+            }
+        }
+        k => panic!("bad case kind {k}"),
+    }
+    out.fps = fps.into_iter().collect();
+    out
+}
+
+fn gen_cases(ctx: &Ctx) -> Vec<Case> {
+    let mut cases = vec![Case { kind: "corpus", seed: 0, n: 0, fileformat: None, idx: IdxMode::None, model: Model::Full }];
+    let per = ctx.budget("per_case", 200, 250) as usize;
+    let nrec = ctx.budget("cases", 100, 4000);
+    for i in 0..nrec {
+        let fileformat = Some((4, 2 + (i % 4) as u32));
+        let model = match i % 10 {
+            8 => Model::Common,
+            9 => Model::Bcf,
+            _ => Model::Full,
+        };
+        cases.push(Case { kind: "records", seed: ctx.seed.wrapping_mul(1_000_003).wrapping_add(i), n: per, fileformat, idx: IdxMode::None, model });
+    }
+    let nh = ctx.budget("header_cases", 20, 500);
+    for i in 0..nh {
+        cases.push(Case { kind: "headers", seed: ctx.seed.wrapping_mul(7_000_003).wrapping_add(i), n: 100, fileformat: None, idx: IdxMode::None, model: Model::Full });
+    }
+    cases
+}
 
 fn main() {
-    eprintln!("c09: not implemented");
-    std::process::exit(2);
+    let ctx = Ctx::from_args();
+    let ctx = vcore::cases::replay_request(&ctx).map(|r| r.1).unwrap_or(ctx);
+    let mut rep = Report::new(
+        "case = one generated header + a batch of records consistent with it (or a batch of headers); every record is written by \
+         vcf::io::Writer, split column-wise by an independent splitter, read back eagerly and lazily, and its span is recomputed \
+         independently; evaluations = headers + records; distinct = distinct data-free feature tokens (fileformat x column shape: \
+         Number x Type x value shape, integer/float/string boundary class, ALT kind, genotype ploidy/phasing/missing, span driver, \
+         sample count class) observed on records, plus header shape classes; non-trivial = all",
+    );
+    rep.assumptions.push("oracles: the generator's description of each value; an independent VCF line writer/splitter and span rule written from the VCF 4.2-4.5 specification (genvcf::text)".into());
+    rep.assumptions.push("format-inherent tolerances: NaN payloads (one text spelling), trailing missing sample values, an array holding one missing entry == missing value, first-allele phasing before VCF 4.4 (not representable), REF restricted to ACGTN (the writer folds IUPAC codes by specification)".into());
+    rep.assumptions.push("span rule as the property names it: INFO END before 4.5; POS + max(len REF, SVLEN, FORMAT LEN) - 1 from 4.5".into());
+    let cases = gen_cases(&ctx);
+    let f = |i: u64| -> CaseOut { run_case(&cases[i as usize]) };
+    run_cases(&ctx, &mut rep, cases.len() as u64, 120.0, &f, &|i| case_json(&cases[i as usize]));
+    if ctx.replay.is_none() {
+        let counters = rep.counters.clone();
+        let get = |k: &str| counters.get(k).copied().unwrap_or(0);
+        let recs = get("records");
+        rep.floor("records_accepted", get("records_accepted"), recs * 9 / 10);
+        rep.floor("headers_accepted", get("headers_accepted"), get("headers") * 9 / 10);
+        rep.floor("lazy_records_read_through_every_accessor", get("lazy_records_read_through_every_accessor"), recs * 8 / 10);
+        rep.floor("spans_vs_independent_rule", get("spans_vs_independent_rule"), recs * 7 / 10);
+        rep.floor("lines_split_and_compared_columnwise", get("lines_split_and_compared_columnwise"), recs * 8 / 10);
+        let combos: usize = genvcf::info_combos().iter().map(|(n, t)| format!("info[{}x{}]", n.class(), t.text())).collect::<BTreeSet<_>>().iter().filter(|k| get(k) > 0).count();
+        rep.floor("info Number x Type classes covered", combos as u64, 25);
+        let fcombos: usize = genvcf::format_combos(false).iter().map(|(n, t)| format!("format[{}x{}]", n.class(), t.text())).collect::<BTreeSet<_>>().iter().filter(|k| get(k) > 0).count();
+        rep.floor("format Number x Type classes covered", fcombos as u64, 24);
+        for k in ["span_driven_by[END|before-4.5]", "span_driven_by[SVLEN/LEN|from-4.5]", "records_samples[0]", "records_samples[4+]"] {
+            rep.floor(k, get(k), 20);
+        }
+    }
+    rep.finish(&ctx);
 }
